@@ -19,9 +19,19 @@ def leaves_of(t):
 
 
 def mentioned(path_conds, upto, leaf):
+    """an *order* comparison (or an equality assumed true) on the leaf earlier on the path"""
     for c in path_conds[:upto]:
-        if H.mentions(c[0], leaf):
+        t = c[0]
+        if not H.mentions(t, leaf):
+            continue
+        if t[0] == "bin" and t[1] in ("Lt", "Le", "Gt", "Ge"):
             return True
+        if t[0] == "bin" and t[1] == "Eq" and ((c[2] == 1) if c[1] == "==" else True):
+            return True
+        if t[0] == "bin" and t[1] == "Ne" and c[1] == "==" and c[2] == 0:
+            return True
+        if t[0] == "bin" and t[1] in ("AddOvf", "SubOvf", "MulOvf"):
+            return True  # an earlier overflow check on the same quantity passed
     return False
 
 
